@@ -86,6 +86,8 @@ Definition rgb5a3_ok (value : N) (px : list N) : bool :=
 Definition align8 (w : N) : N := (w + 7) / 8 * 8.
 Definition align4 (h : N) : N := (h + 3) / 4 * 4.
 Definition ci8_index (w x y : N) : N := ((y / 4) * (align8 w / 8) + x / 8) * 32 + (y mod 4) * 8 + x mod 8.
+(* i-th big-endian 16-bit entry of a palette / RGB5A3 payload *)
+Definition be16_at (data : bytes) (i : N) : N := 256 * nth (N.to_nat (2 * i)) data 0 + nth (N.to_nat (2 * i + 1)) data 0.
 
 (* ---------------- ETC1 ---------------- *)
 (* word: the 64 bits of a block, bit 63 = most significant bit of the first byte of the big-endian
